@@ -75,6 +75,20 @@ func expectScalar(doc []byte, got tengo.Object) {
 		}
 		if plain {
 			vf.Assert(s.Value == string(body), "a plain ASCII string decodes to its body")
+		} else {
+			// escapes: a valid JSON string without \/ and without surrogate
+			// escapes is also a Go string literal with the same meaning
+			ascii := true
+			for _, x := range body {
+				if x >= 0x80 {
+					ascii = false
+				}
+			}
+			if ascii {
+				if u, err := strconv.Unquote(string(doc)); err == nil {
+					vf.Assert(s.Value == u, "a JSON string with escapes decodes to what the same Go string literal denotes")
+				}
+			}
 		}
 	}
 }
@@ -133,6 +147,7 @@ func C18_DecodeBytes() {
 // key, nested containers, after a first element, after a literal).
 var jsonContexts = [][2]string{
 	{"[", "]"}, {"{\"a\":", "}"}, {"[[", "]]"}, {"[0,", "]"}, {"{", ":1}"}, {"[{\"k\":[", "]}]"},
+	{"[\"\\u0", "\"]"}, {"[\"\\u00", "\"]"}, {"[\"\\uD83D\\uDE", "\"]"}, {"{\"\\u00", "\":1}"}, {"[\"\\", "\"]"},
 	{"[1", "]"}, {"[1.5", "]"}, {"[1e2", "]"}, {"[-", "]"}, {"[\"", "\"]"}, {"[tru", "]"}, {"{\"a\":1", "}"}, {" [ ", " ] "},
 }
 
